@@ -801,4 +801,30 @@ theorem C04_generated_payonce_terms_are_the_model (h ex cost : Int) (p : Params)
     omega
   rw [this]
 
+/-- The duration and upgrade arithmetic of a plan purchase, sliced from `BuyStorage` and
+`UpgradeStorage`: the plan length in hours is the millisecond duration divided by 3 600 000 (as a
+decimal, truncated where it is used), the remaining time of the running plan likewise, the old
+plan's size in whole GB is `SpaceAvailable / gb`, and the upgrade price is the new plan's full
+price minus `GetStorageCost(currentGbs, remaining hours)` — the terms of the model's `buyStorage` /
+`upgradeCost`. -/
+theorem C04_generated_upgrade_terms_are_the_model (ms left avail newCost oldCost : Int) :
+    Generated.Pure.BuyStorage_hours ms = Dec.quo? (Dec.ofInt ms) (Dec.ofInt hourMs) ∧
+    Generated.Pure.UpgradeStorage_proratedDurationInHour left = Dec.quo? (Dec.ofInt left) (Dec.ofInt hourMs) ∧
+    Generated.Pure.UpgradeStorage_currentGbs avail gb = Int.tdiv avail gb ∧
+    Generated.Pure.UpgradeStorage_price newCost oldCost = some (newCost - oldCost) ∧
+    Generated.Pure.BuyStorage_hours_inputs = ["duration.Milliseconds()"] ∧
+    Generated.Pure.UpgradeStorage_proratedDurationInHour_inputs = ["proratedDuration.Milliseconds()"] ∧
+    Generated.Pure.UpgradeStorage_currentGbs_inputs = ["payInfo.SpaceAvailable", "gb"] ∧
+    Generated.Pure.UpgradeStorage_price_inputs =
+      ["storageCost", "k.GetStorageCost(ctx, currentGbs, proratedDurationInHour.TruncateInt64())"] := by
+  refine ⟨?_, ?_, rfl, rfl, rfl, rfl, rfl, rfl⟩
+  · unfold Generated.Pure.BuyStorage_hours
+    simp only [bind, Option.bind]
+    have : Dec.ofInt (60 * 60 * 1000) = Dec.ofInt hourMs := by decide
+    rw [this]; cases Dec.quo? (Dec.ofInt ms) (Dec.ofInt hourMs) <;> rfl
+  · unfold Generated.Pure.UpgradeStorage_proratedDurationInHour
+    simp only [bind, Option.bind]
+    have : Dec.ofInt (60 * 60 * 1000) = Dec.ofInt hourMs := by decide
+    rw [this]; cases Dec.quo? (Dec.ofInt left) (Dec.ofInt hourMs) <;> rfl
+
 end Canine.Storage
